@@ -111,12 +111,18 @@ def verify_function(key, tier='quick', keep_terms=False, discharge=True):
             st.locals = dict(env)
             if getattr(c, 'ghost_entry', None):
                 E.run_ghost(st, c.ghost_entry)
+            is_gen = any(isinstance(n, (ast.Yield, ast.YieldFrom)) for b in body_stmts for n in ast.walk(b))
+            if is_gen:
+                if c.returns.kind != 'list':
+                    raise Undecided('generator function needs returns=List[...] (the list of yielded values)')
+                from . import builtins as B
+                st.locals['_yielded'] = B.new_list(st, [], et=c.returns.args[0])
             outcome = None
             try:
                 E.exec_block(st, body_stmts)
-                outcome = ('normal', E.NONE_VAL())
+                outcome = ('normal', st.locals['_yielded'] if is_gen else E.NONE_VAL())
             except ReturnSig as r:
-                outcome = ('normal', r.val)
+                outcome = ('normal', st.locals['_yielded'] if is_gen else r.val)
             except PyRaise as pr:
                 outcome = ('raise', pr)
             except (BreakSig, ContinueSig):
